@@ -139,8 +139,11 @@ func runC01(c *Ctx) {
 	c.Note("C01-D1 covered %d Encode sites and %d NewPacket sites", nEnc, nNew)
 	// no other Encode site exists outside this table (a new send path must be added here)
 	for _, fn := range p.SrcFuncs() {
+		if siteOf(fn) != nil && EnclosingTop(fn) == fn {
+			continue // a transparent helper's calls are listed with its owner
+		}
 		for _, cs := range CallsTo(Calls(fn), `\(parser\.Parser\)\.Encode`) {
-			top := FuncName(EnclosingTop(fn))
+			top := FuncName(ownerOf(EnclosingTop(fn)))
 			known := false
 			for _, k := range []string{"(*sio.serverSocket).emit", "(*sio.serverSocket).sendControlPacket", "(*sio.serverSocket).sendAckPacket", "(*sio.clientSocket).emit", "(*sio.clientSocket).sendControlPacket", "(*sio.clientSocket).sendAckPacket", "(*sio.serverConn).connectError", "sio.newServerSocket", "(*adapter.inMemoryAdapter).Broadcast"} {
 				if top == k {
